@@ -377,7 +377,7 @@ def main(mod, argv):
     from . import rt as _rt
 
     _rt.install(_rt.NullRT())
-    wall = getattr(mod, "CASE_WALL", 90)
+    wall = getattr(mod, "CASE_WALL", 240)
     nonce = f"{os.getpid()}-{time.time_ns()}"
     mod_name = mod.__name__.split(".")[-1]
 
